@@ -1,12 +1,17 @@
 from excel2pycl.src.cell import Cell
 from excel2pycl.src.exceptions import E2PyclParserException
-from excel2pycl.src.tokens import EntryPointToken
+from excel2pycl.src.tokens import EntryPointToken, CompositeBaseToken
 
 
 class AstBuilder:
     @classmethod
     def parse(cls, expression: list, in_cell: Cell):
-        token, unparsed_tokens = EntryPointToken.get(expression, in_cell)
+        try:
+            token, unparsed_tokens = EntryPointToken.get(expression, in_cell)
+        finally:
+            # the parsed rests of this formula are of no use for the next one
+            CompositeBaseToken._get.cache_clear()
+
         if token is None or unparsed_tokens:
             raise E2PyclParserException('Formula has an incorrect structure', in_cell, unparsed_tokens)
 
